@@ -138,6 +138,42 @@ Theorem amdp_asis_ok_when_same_step :
 Proof. exact amdp_asis_same_step. Qed.
 Print Assumptions amdp_asis_ok_when_same_step.
 
+(* ---- values returned by an object vs. later reconfiguration of the object ---- *)
+(* the Discretizer made by AMDP::makeDiscretizer captures S and the bucket count by value: whatever state
+   the producing AMDP object is in when the discretizer is called, it computes amdp_disc with the bucket
+   count of creation time *)
+Theorem amdp_discretizer_is_snapshot :
+  forall (lg : Q -> Q) (o cur1 cur2 : amdp_obj) (S : nat) (b : vec),
+  amdp_make lg o S cur1 b = amdp_make lg o S cur2 b /\ amdp_make lg o S cur1 b = amdp_disc lg S (a_buckets o) b.
+Proof. exact amdp_closure_snapshot_lemma. Qed.
+Print Assumptions amdp_discretizer_is_snapshot.
+
+(* a lambda capturing `this` instead (seeded change r3-1): S = 2, uniform belief, 10 buckets at creation,
+   setEntropyBuckets(3) later: index 18, then 4 *)
+Theorem amdp_discretizer_capturing_this_refuted :
+  exists (o cur1 cur2 : amdp_obj) (S : nat) (b : vec), amdp_make_this lg2 o S cur1 b <> amdp_make_this lg2 o S cur2 b.
+Proof. exact amdp_closure_this_refuted_lemma. Qed.
+Print Assumptions amdp_discretizer_capturing_this_refuted.
+
+(* ---- threads that run one after the other ---- *)
+(* with the process-wide Seeder the thread that executes an operation is irrelevant: two programs with the same
+   sequence of operations give the same draws and world, whichever threads ran them *)
+Theorem sequential_threads_irrelevant :
+  forall (state : Type) (seed_of : N -> state) (next : state -> state * N) (w : sworld state) (p q : list tpop),
+  map erase_thread p = map erase_thread q ->
+  tprog_run state seed_of next w p = tprog_run state seed_of next w q.
+Proof. exact tprog_thread_irrelevant. Qed.
+Print Assumptions sequential_threads_irrelevant.
+
+(* a thread_local Seeder (seeded change r3-2): setRootSeed on thread 0, object constructed and sampled on
+   thread 1 — the draw depends on thread 1's own (clock-seeded) Seeder *)
+Theorem thread_local_seeder_refuted :
+  exists (p : list tpop) (w1 w2 : tl_world N),
+    tl_seeder N w1 0 = tl_seeder N w2 0 /\ tl_objs N w1 = tl_objs N w2 /\
+    snd (tl_run N (fun r => r) toy_next_tl w1 p) <> snd (tl_run N (fun r => r) toy_next_tl w2 p).
+Proof. exact thread_local_seeder_refuted_lemma. Qed.
+Print Assumptions thread_local_seeder_refuted.
+
 (* ---- per-call fields of solver objects: "every field is (re)initialised before it is used"
         (C16/ModelCall.v: a call is a sequence of `field := fn(fields read)` with arbitrary functions;
         only the order of the C++'s field accesses is modelled) ---- *)
